@@ -36,8 +36,20 @@ use serde::{Deserialize, Serialize};
 /// string ordering.
 ///
 /// Apaths must start with `/` and not end with `/` unless they have length 1.
-#[derive(Clone, Debug, Eq, PartialEq, Serialize, Deserialize, Hash)]
+#[derive(Clone, Debug, Eq, PartialEq, Serialize, Hash)]
 pub struct Apath(String);
+
+/// Apaths read from an index must be well-formed: code using them relies on it.
+impl<'de> Deserialize<'de> for Apath {
+    fn deserialize<D: serde::Deserializer<'de>>(deserializer: D) -> Result<Self, D::Error> {
+        let s = String::deserialize(deserializer)?;
+        if Apath::is_valid(&s) {
+            Ok(Apath(s))
+        } else {
+            Err(serde::de::Error::custom(format!("invalid apath {s:?}")))
+        }
+    }
+}
 
 impl Apath {
     /// True if this string is a well-formed apath.
